@@ -91,9 +91,14 @@ class _FakePA(object):
         unmodelled_attr('pyarrow.', name)
 
     @staticmethod
-    def array(data, type=None, **kw):
+    def array(data, type=None, from_pandas=False, safe=True, **kw):
         for k in kw:
             UNMODELLED.append('pa.array(%s=...)' % k)
+        if safe is not True:
+            UNMODELLED.append('pa.array(safe=%r)' % (safe,))
+        if from_pandas:
+            # documented: "use pandas's semantics for inferring nulls from values" - a NaN becomes a null cell
+            data = [None if (isinstance(x, float) and x != x) else x for x in data]
         return FArray(data)
 
 
@@ -201,6 +206,17 @@ def validate():
     from rx.scheduler import ImmediateScheduler
     import rxsci.container.parquet as P
     mod = sys.modules['rxsci.container.parquet']
+    # cells: a NaN is a float value, None a null; from_pandas=True (pandas semantics) turns NaN into null - the same in the real library and in the fake
+    import math
+    cells = [1.5, float('nan'), None, -0.0, float('inf')]
+
+    def shape(vals):
+        return ['nan' if (isinstance(x, float) and x != x) else ('-0' if (isinstance(x, float) and x == 0 and math.copysign(1, x) < 0) else x) for x in vals]
+    for fp in (False, True):
+        real = shape(pa.array(cells, type=pa.float64(), from_pandas=fp).to_pylist())
+        fake = shape(FakePA.array(cells, type=None, from_pandas=fp).to_pylist())
+        if real != fake:
+            return 'pa.array(from_pandas=%s): real %r, fake %r' % (fp, real, fake)
     grid = [(0, 3), (1, 1), (3, 1), (4, 2), (5, 2), (6, 3), (7, 3), (3, 10), (2048, 1024), (5000, 999)]
     for n, bs in grid:
         rows = [dict(a=i, b='s%d' % (i % 13)) for i in range(n)]
